@@ -1136,6 +1136,14 @@ def redeclaration (d : Dialect) (items : List Sexp) : Option String :=
     | _ => none)
   let sigs := funcs.map (fun f => f.1 ++ "(" ++ ", ".intercalate (f.2.1.map (fun p => match paramTy p with | some (_, t, _) => toString t | none => "?")) ++ ")")
   let fnames := funcs.map (·.1)
+  let memberDup := items.findSome? (fun it => match it with
+    | .list (.atom "struct" :: .atom n :: fs) =>
+      (dupOf (fs.filterMap (fun f => match f with | .list (.atom "field" :: _ :: .atom m :: _) => some m | _ => none))).map
+        (fun m => s!"redeclaration: struct {n} has two members named {m}")
+    | _ => none)
+  match memberDup with
+  | some e => some e
+  | none =>
   match dupOf types with
   | some n => some s!"redeclaration: type {n} is defined twice"
   | none =>
